@@ -83,6 +83,18 @@ static std::vector<Prog> programs() {
     for (int i = 0; i < 5; ++i) v.push_back(M::Sphere(0.6, 6).Translate({0.35 * i, 0.1 * i, 0.05 * i}));
     return meshHash(M::BatchBoolean(v, OpType::Add));
   });
+  // results of one round that tie in NumVert: the heap's tie-break (serial number) decides the pairing of the next round
+  add("BatchBoolean+ with ties", false, [] {
+    const M big = M::Sphere(1.0, 4);
+    std::vector<M> v;
+    v.push_back(M::Sphere(0.6, 4).Translate({0.4, 0.3, 0.2}));
+    const vec3 d(0.83, 0.11, 0.07);
+    for (const vec3 t : {vec3(0, 0, 0), vec3(0, 0.5, 0), vec3(0, 0, 0.5), vec3(0, 0.5, 0.5)}) {
+      v.push_back(big.Translate(t));
+      v.push_back(big.Translate(t + d));
+    }
+    return meshHash(M::BatchBoolean(v, OpType::Add));
+  });
   add("BatchBoolean- of 9", false, [] {
     std::vector<M> v;
     v.push_back(M::Cube({3, 1, 1}));
@@ -177,7 +189,7 @@ int main(int argc, char** argv) {
   auto P = programs();
   // quick: a fixed subset (one program per parallel mechanism); thorough: everything incl. scale L
   static const char* QUICK[] = {"Sphere8 - Cube", "BatchBoolean+ of 5", "Hull(sphere verts)", "LevelSet(two spheres)",
-                                "SmoothOut+Refine(3)", "CalculateNormals+Curvature", "CrossSection booleans+Offset", "Triangulate(many holes)", "Import 6 bow-ties"};
+                                "SmoothOut+Refine(3)", "CalculateNormals+Curvature", "CrossSection booleans+Offset", "Triangulate(many holes)", "Import 6 bow-ties", "BatchBoolean+ with ties"};
   std::vector<int> sel;
   for (int i = 0; i < (int)P.size(); ++i) {
     bool q = false;
@@ -238,7 +250,7 @@ int main(int argc, char** argv) {
     cfg.freeCost = 1;
     cfg.workers = 2;
     cfg.concurrency = CONC[ci];
-    cfg.timeout = 120;
+    cfg.timeout = 900;
     cfg.inProcess = true;  // fork costs ~30 ms in this sandbox
     cfg.rootStride = J;
     cfg.rootOffset = j;
